@@ -279,7 +279,7 @@ func decLargeProp(t *testing.T, prop string, faults bool) {
 					st.class("config-rejected")
 					return
 				}
-				beginCase(prop, "large-"+vehicle, func() any { return summarizeDecCase(x) })
+				beginCase(prop, "large-"+vehicle, func() any { return x.Case() }) // replayable (only written out if the case hangs)
 				defer endCase()
 				genDecLargeHistoryOpt(t, x, faults, prop == "C05")
 				x.finish()
